@@ -34,6 +34,8 @@ def stages_for(replay, tier, extra=None):
         return [
             g("V4", replay, "V4", leafs="V4_Leafs", comps="V4_Comps", inlines="V4_Inlines", maxsel=2, maxnodes=3, maxdepth=3,
               extra=extra),
+            g("V4i", replay, "V4", leafs="V4i_Leafs", comps="V4i_Comps", inlines="V4i_Inlines", maxsel=2, maxnodes=5, maxdepth=3,
+              extra=extra),
             g("V3", replay, "V3", leafs="V3_Leafs", comps="V3_Comps", maxsel=2, maxnodes=2, maxdepth=2, extra=extra),
             g("V3d", replay, "V3", leafs="V3_Leafs", dirs="V3_Dirs", maxsel=1, maxnodes=1, maxdepth=1, extra=extra),
             g("V3s", replay, "V3", leafs="V3s_Leafs", dirs="V3s_Dirs", maxsel=2, maxnodes=2, maxdepth=1, extra=extra),
@@ -50,6 +52,8 @@ def stages_for(replay, tier, extra=None):
     return [
         g("V4", replay, "V4", leafs="V4_Leafs", comps="V4_Comps", inlines="V4_Inlines", maxsel=2, maxnodes=4, maxdepth=3,
           extra=extra),
+        g("V4i", replay, "V4", leafs="V4i_Leafs", comps="V4i_Comps", inlines="V4i_Inlines", maxsel=3, maxnodes=6, maxdepth=4,
+          timeout=3000, extra=extra),
         g("V3", replay, "V3", leafs="V3_Leafs", comps="V3_Comps", maxsel=2, maxnodes=3, maxdepth=2, extra=extra),
         g("V3d", replay, "V3", leafs="V3_Leafs", dirs="V3_Dirs", maxsel=1, maxnodes=1, maxdepth=1, extra=extra),
         g("V3s", replay, "V3", leafs="V3s_Leafs", dirs="V3s_Dirs", maxsel=3, maxnodes=3, maxdepth=1, extra=extra),
